@@ -17,9 +17,10 @@ os.makedirs(dst, exist_ok=True)
 for f in ("patch.diff", "demo.py", "notes.md"):
     if os.path.exists(os.path.join(src, f)) and os.path.abspath(src) != os.path.abspath(dst):
         shutil.copy(os.path.join(src, f), os.path.join(dst, f))
+REPO = os.environ.get("SEED_REPO", "/repo")        # a scratch worktree can be used so that /repo stays untouched
 home = "/verif/.scratch/seedhome"
 os.makedirs(home, exist_ok=True)
-env = dict(os.environ, HOME=home, MPLBACKEND="Agg", PYTHONPATH="/repo/src")
+env = dict(os.environ, HOME=home, MPLBACKEND="Agg", PYTHONPATH=REPO + "/src")
 
 
 def sh(cmd, **kw):
@@ -28,21 +29,22 @@ def sh(cmd, **kw):
 
 
 meta = {"seed": name, "breaks": props, "ran": []}
-rc0, _ = sh(f"cd /repo && git status --porcelain --untracked-files=no")
+rc0, _ = sh(f"cd {REPO} && git status --porcelain --untracked-files=no")
 assert _.strip() == "", "repo not clean: " + _
 try:
-    rc, o = sh(f"cd /repo && /venv/bin/python {dst}/demo.py")
+    rc, o = sh(f"cd {REPO} && /venv/bin/python {dst}/demo.py")
     meta["demo_without_patch_rc"] = rc
-    rc, o = sh(f"git -C /repo apply {dst}/patch.diff")
+    rc, o = sh(f"git -C {REPO} apply {dst}/patch.diff")
     assert rc == 0, "patch does not apply: " + o
-    rc, o = sh("cd /repo && /venv/bin/python -m pytest -q -p no:cacheprovider 2>&1 | tail -1")
+    rc, o = sh(f"cd {REPO} && /venv/bin/python -m pytest -q -p no:cacheprovider 2>&1 | tail -1")
     meta["suite_with_patch"] = o.strip()
-    rc, o = sh(f"cd /repo && /venv/bin/python {dst}/demo.py")
+    rc, o = sh(f"cd {REPO} && /venv/bin/python {dst}/demo.py")
     meta["demo_with_patch_rc"] = rc
     meta["demo_with_patch_tail"] = o.strip()[-300:]
     for p in props:
         t = time.time()
-        pr = subprocess.run(f"cd /verif && ./check {p} --tier quick", shell=True, capture_output=True, text=True)
+        pr = subprocess.run(f"cd /verif && ./check {p} --tier quick", shell=True, capture_output=True, text=True,
+                            env=dict(os.environ, PYTHONPATH=REPO + "/src"))
         lines = [l for l in pr.stdout.splitlines() if l.startswith(("VIOLATION", "KNOWN-FINDING", "ENGINE", "[")) or l.startswith("  C")]
         viol = [l for l in pr.stdout.splitlines() if l.startswith("VIOLATION")]
         detail = [l.strip()[:240] for l in pr.stdout.splitlines() if l.startswith("  C")][:3]
@@ -50,7 +52,7 @@ try:
                             "summary": [l for l in pr.stdout.splitlines() if l.startswith("[")][-1:], "seconds": round(time.time() - t, 1),
                             "engine_lines": [l[:200] for l in pr.stdout.splitlines() if l.startswith("ENGINE")][:3]})
 finally:
-    sh("git -C /repo checkout -- .")
+    sh(f"git -C {REPO} checkout -- .")
 meta["needs"] = open(os.path.join(dst, "notes.md")).read()[:1500] if os.path.exists(os.path.join(dst, "notes.md")) else ""
 meta["valid_seed"] = (meta.get("demo_without_patch_rc") == 0 and meta.get("demo_with_patch_rc", 0) != 0 and "passed" in meta.get("suite_with_patch", "")
                       and "failed" not in meta.get("suite_with_patch", ""))
